@@ -23,10 +23,24 @@ import (
 	"verif/h/pt"
 )
 
-const (
-	verifDir = "/verif"
-	repoDir  = "/repo"
-)
+const verifDir = "/verif"
+
+// repoDir is the tree the checks rebuild from: /repo, or - for trying a seeded change next to a running
+// check without touching /repo - a scratch worktree named by VERIF_ALT_REPO (then evidence and replay
+// files go to VERIF_ALT_OUT and nothing under /verif is written).
+var repoDir = "/repo"
+var outDir = verifDir
+
+func init() {
+	if r := os.Getenv("VERIF_ALT_REPO"); r != "" {
+		repoDir = r
+		outDir = os.Getenv("VERIF_ALT_OUT")
+		if outDir == "" {
+			outDir = filepath.Join(os.TempDir(), "verif-alt-out")
+		}
+		os.MkdirAll(outDir, 0o755)
+	}
+}
 
 var goEnv = []string{"GOFLAGS=-mod=mod", "GOPROXY=off", "GOSUMDB=off", "GOTOOLCHAIN=local"}
 
@@ -184,6 +198,18 @@ func buildWorker(scratch string, race bool) (string, json.RawMessage, error) {
 	if race {
 		bin = filepath.Join(scratch, "w.race.test")
 		args = []string{"test", "-c", "-race", "-tags", "verif", "-vet=off", "-overlay", filepath.Join(ov, "overlay.json"), "-o", bin}
+	}
+	if repoDir != "/repo" {
+		// the harness module replaces the orda modules by /repo/...: build with a copy of go.mod pointing at the other tree
+		gm, err := os.ReadFile(filepath.Join(verifDir, "h", "go.mod"))
+		if err != nil {
+			return "", rep, err
+		}
+		alt := filepath.Join(scratch, "alt.mod")
+		os.WriteFile(alt, bytes.ReplaceAll(gm, []byte("=> /repo"), []byte("=> "+repoDir)), 0o644)
+		gs, _ := os.ReadFile(filepath.Join(verifDir, "h", "go.sum"))
+		os.WriteFile(filepath.Join(scratch, "alt.sum"), gs, 0o644)
+		args = append(args[:2], append([]string{"-modfile=" + alt}, args[2:]...)...)
 	}
 	args = append(args, "./w")
 	if out, err := run(filepath.Join(verifDir, "h"), goEnv, "go1.26", args...); err != nil {
@@ -346,7 +372,8 @@ func (c *ctx) record(r Run, hist []pt.Action, v *pt.Violation, extra interface{}
 	}
 	b, _ := json.MarshalIndent(rf, "", " ")
 	h := sha256.Sum256(append([]byte(v.Sig), b...))
-	path := filepath.Join(verifDir, "replays", fmt.Sprintf("%s-%s.json", c.id, hex.EncodeToString(h[:6])))
+	os.MkdirAll(filepath.Join(outDir, "replays"), 0o755)
+	path := filepath.Join(outDir, "replays", fmt.Sprintf("%s-%s.json", c.id, hex.EncodeToString(h[:6])))
 	os.MkdirAll(filepath.Dir(path), 0o755)
 	os.WriteFile(path, b, 0o644)
 	c.violLines = append(c.violLines, fmt.Sprintf("VIOLATION property=%s replay=%s sig=%s", c.id, path, v.Sig))
@@ -894,8 +921,8 @@ func (c *ctx) writeEvidence(plan Plan, stats []*runStats) {
 		"violations":  c.violations,
 	}
 	b, _ := json.MarshalIndent(ev, "", " ")
-	os.MkdirAll(filepath.Join(verifDir, "evidence"), 0o755)
-	os.WriteFile(filepath.Join(verifDir, "evidence", c.id+".json"), b, 0o644)
+	os.MkdirAll(filepath.Join(outDir, "evidence"), 0o755)
+	os.WriteFile(filepath.Join(outDir, "evidence", c.id+".json"), b, 0o644)
 }
 
 // runReplay re-executes a replay file without the explorer and prints what happens.
